@@ -698,6 +698,8 @@ def report(ctx, verdicts, name, counters, shrink=None):
     for kind, msg, rp in verdicts:
         if kind == 'violation':
             counters['violations'] = counters.get('violations', 0) + 1
+            bs = counters.setdefault('violations_by_stream', {})
+            bs[name] = bs.get(name, 0) + 1          # all of them are counted; only the first six get a replay file
             if len(ctx.violations) < 6:
                 if shrink:
                     try:
@@ -1122,7 +1124,7 @@ def geom_from_json(x):
 def load_corpus():
     p = os.path.join(ROOT, 'gen/corpus/C06.jsonl')
     out = []
-    if os.path.exists(p):
+    if os.path.exists(p) and not os.environ.get('C06_NO_CORPUS'):      # C06_NO_CORPUS=1: generator families only (detection-power experiments)
         for l in open(p):
             l = l.strip()
             if l and not l.startswith('#'):
@@ -1332,6 +1334,8 @@ def run(ctx):
     ctx.cov['traces_validated_against_impl'] = ctx.cov['evaluations']
     ctx.notes['distribution'] = dist
     ctx.notes['verdict_counters'] = counters
+    if counters.get('violations_by_stream'):
+        ctx.log('violating witnesses by stream: %s' % counters['violations_by_stream'])
     for c in cases[:3] + lcases[:2]:
         ctx.sample(harness_line(c)[:400])
     # ---- self-check of the generators: every class the proofs and clauses split on must have been drawn
